@@ -335,6 +335,17 @@ Lemma d14_blocked_delete_refuted :
    exists i, aget 3%positive (s_hn (snd (run e evs))) = Some i /\ i_children i = [4%positive]).
 Proof. vm_compute. repeat split; try discriminate; try reflexivity. eexists. split; reflexivity. Qed.
 
+(* D15 (thorough-tier finding): h1 is listed by h3 and h2 (h2's update was refused); when h1's
+   object arrives only ONE claimer's chain was rebuilt: with h2 picked, the retry of h2's failed
+   rebuild succeeded and the view reported Ready with h1 a member of both.  Now the rebuild of
+   a HyperNode that more than one HyperNode lists fails. *)
+Lemma d15_arrival_under_two_claimers_refuted :
+  let e := mkEnv [] [] in
+  let evs := [EUpd (mkObj 3 2 [MHyper 1]); EDel 1; EUpd (mkObj 2 1 [MHyper 1]); EUpd (mkObj 1 0 [])]%positive in
+  bad_membership [mkObj 1 0 []; mkObj 2 1 [MHyper 1]; mkObj 3 2 [MHyper 1]]%positive = true /\
+  s_ready (snd (run_round9 e evs)) = true /\ s_ready (snd (run e evs)) = false.
+Proof. vm_compute. repeat split; reflexivity. Qed.
+
 (* still open (known finding D7): on the repaired code a bad membership can stay unreported
    when the claimer's tier is not above the member's *)
 Lemma bad_membership_not_ready_refuted : exists evs,
@@ -351,24 +362,24 @@ Lemma rebuild_all_err e : forall l a,
   (snd a = true -> s_ready (fst a) = false) ->
   snd (fold_left (fun (acc : st * bool) k => let '(s0, e0) := acc in
          if (e0 : bool) then acc else
-         let '(s1, e1) := rebuild_cache e s0 k in
-         if (e1 : bool) then (mark_failed 4 s1 k, true) else (unfail 4 s1 k, false)) l a) = true ->
+         let '(s1, e1) := rebuild_cache_gen 5 e s0 k in
+         if (e1 : bool) then (mark_failed 5 s1 k, true) else (unfail 5 s1 k, false)) l a) = true ->
   s_ready (fst (fold_left (fun (acc : st * bool) k => let '(s0, e0) := acc in
          if (e0 : bool) then acc else
-         let '(s1, e1) := rebuild_cache e s0 k in
-         if (e1 : bool) then (mark_failed 4 s1 k, true) else (unfail 4 s1 k, false)) l a)) = false.
+         let '(s1, e1) := rebuild_cache_gen 5 e s0 k in
+         if (e1 : bool) then (mark_failed 5 s1 k, true) else (unfail 5 s1 k, false)) l a)) = false.
 Proof.
   induction l as [|k l IH]; intros a Ha; simpl; [exact Ha|].
   apply IH. destruct a as [s2 e2]. destruct e2; [exact Ha|].
-  destruct (rebuild_cache e s2 k) as [s3 e3]. destruct e3; simpl; [reflexivity|discriminate].
+  destruct (rebuild_cache_gen 5 e s2 k) as [s3 e3]. destruct e3; simpl; [reflexivity|discriminate].
 Qed.
 
 Lemma freed_loop_err e nm : forall l a,
   (snd a = true -> s_ready (fst a) = false) ->
   snd (fold_left (fun (acc : st * bool) fr => let '(s0, e0) := acc in
-         if (e0 : bool) then acc else rebuild_all 4 e s0 (claimers (s_hn s0) fr nm)) l a) = true ->
+         if (e0 : bool) then acc else rebuild_all 5 e s0 (claimers (s_hn s0) fr nm)) l a) = true ->
   s_ready (fst (fold_left (fun (acc : st * bool) fr => let '(s0, e0) := acc in
-         if (e0 : bool) then acc else rebuild_all 4 e s0 (claimers (s_hn s0) fr nm)) l a)) = false.
+         if (e0 : bool) then acc else rebuild_all 5 e s0 (claimers (s_hn s0) fr nm)) l a)) = false.
 Proof.
   induction l as [|x l IH]; intros a Ha; simpl; [exact Ha|].
   apply IH. destruct a as [s0 e0]. destruct e0; [exact Ha|].
@@ -384,7 +395,7 @@ Proof.
   match type of H with (let '(_, _) := ?c in _) = _ => destruct c as [s4 err] end.
   destruct err.
   - inversion H; subst. reflexivity.
-  - pose proof (freed_loop_err e (o_name o) freed (unfail 4 s4 (o_name o), false)
+  - pose proof (freed_loop_err e (o_name o) freed (unfail 5 s4 (o_name o), false)
                   ltac:(simpl; discriminate)) as G.
     match type of H with (let '(_, _) := ?c in _) = _ => set (r := c) in H end.
     change (snd r = true -> s_ready (fst r) = false) in G.
@@ -395,7 +406,7 @@ Qed.
 Lemma del_error_not_ready : forall e s nm s', del e s nm = (s', true) -> s_ready s' = false.
 Proof.
   intros e s nm s' H. unfold del, del_gen in H.
-  destruct (rebuild_cache e _ nm) as [s2 err]. destruct err; [|discriminate].
+  match type of H with (let '(_, _) := ?c in _) = _ => destruct c as [s2 err] end. destruct err; [|discriminate].
   inversion H; subst. reflexivity.
 Qed.
 
